@@ -41,6 +41,10 @@ def run(ctx):
             built.append(("payload", key, mode, p))
         cmds.append("CONSTRUCT %s %s %d 1 NONE" % (key[0:1].hex(), key[1:2].hex(), mode))
         built.append(("none", key, mode, None))
+    # long raw payloads (NAV-POSLLH followed by surplus bytes, stored verbatim); lengths around 4096, 8192, ..., the 16-bit limit
+    for body in gen.long_bodies(rng, ctx.quick()):
+        cmds.append("CONSTRUCT 01 02 0 1 PAYLOAD %s" % gen.hx(body))
+        built.append(("payload", b"\x01\x02", 0, body))
     # config helpers
     keys = list(UBX_CONFIG_DATABASE.items())
     for _ in range(60 if ctx.quick() else 600):
@@ -72,7 +76,7 @@ def run(ctx):
         except Exception:
             continue
         sers.append((b, m))
-    wf = common.run_model(["WF " + gen.hx(m.serialize()) for _, m in sers], shards=8)
+    wf = common.wf_oracle([m.serialize() for _, m in sers], shards=8)
     for (b, m), w in zip(sers, wf):
         inp = {"op": b[0], "args": repr(b[1:])[:300]}
         nf = len(ctx.failures)
